@@ -714,6 +714,71 @@ impl NetcodeServer {
     }
 }
 
+/// Read-only view of a connection slot for the verification harness.
+#[cfg(renet_verif)]
+#[derive(Debug, Clone, PartialEq, Eq)]
+pub struct VerifConnection {
+    pub slot: usize,
+    pub client_id: u64,
+    pub addr: SocketAddr,
+    pub confirmed: bool,
+    pub sequence: u64,
+    pub last_packet_received_time: Duration,
+    pub last_packet_send_time: Duration,
+    pub timeout_seconds: i32,
+    pub expire_timestamp: u64,
+    pub user_data: [u8; NETCODE_USER_DATA_BYTES],
+}
+
+#[cfg(renet_verif)]
+impl NetcodeServer {
+    fn verif_view(slot: usize, c: &Connection) -> VerifConnection {
+        VerifConnection {
+            slot,
+            client_id: c.client_id,
+            addr: c.addr,
+            confirmed: c.confirmed,
+            sequence: c.sequence,
+            last_packet_received_time: c.last_packet_received_time,
+            last_packet_send_time: c.last_packet_send_time,
+            timeout_seconds: c.timeout_seconds,
+            expire_timestamp: c.expire_timestamp,
+            user_data: c.user_data,
+        }
+    }
+
+    pub fn verif_challenge_key(&self) -> [u8; NETCODE_KEY_BYTES] {
+        self.challenge_key
+    }
+
+    pub fn verif_sequences(&self) -> (u64, u64) {
+        (self.global_sequence, self.challenge_sequence)
+    }
+
+    pub fn verif_num_slots(&self) -> usize {
+        self.clients.len()
+    }
+
+    /// Connected clients in slot order.
+    pub fn verif_clients(&self) -> Vec<VerifConnection> {
+        self.clients
+            .iter()
+            .enumerate()
+            .filter_map(|(i, c)| c.as_ref().map(|c| Self::verif_view(i, c)))
+            .collect()
+    }
+
+    /// Pending clients in no particular order.
+    pub fn verif_pending(&self) -> Vec<VerifConnection> {
+        self.pending_clients.values().map(|c| Self::verif_view(0, c)).collect()
+    }
+
+    /// Number of used connect token entries.
+    pub fn verif_token_entries(&self) -> usize {
+        self.connect_token_entries.iter().filter(|e| e.is_some()).count()
+    }
+}
+
 fn find_client_mut_by_id(clients: &mut [Option<Connection>], client_id: u64) -> Option<&mut Connection> {
     clients.iter_mut().flatten().find(|c| c.client_id == client_id)
 }
